@@ -4,10 +4,13 @@
 (* The schema of this module (rendered by the harness):                           *)
 (*   doc   := rec+                                                                *)
 (*   rec   := @id:int (required) @flag:boolean? @ucode:code? @ver:int fixed 1 ?    *)
-(*            (ver accompanies flag), fx:int fixed 1 ? (after name; accompanies     *)
+(*            @kws: list of AT LEAST TWO name tokens ? (ver and kws accompany flag), *)
+(*            fx:int fixed 1 ? (after name; accompanies                             *)
 (*            price)                                                              *)
-(*            name:string, tags:list of int {0,2}, code?, opt?, mark?, alt?,       *)
-(*            price?, para?, (a:int | b:string)*                                   *)
+(*            name:string, tags:list of AT LEAST TWO ints {0,2}, code?, opt?,      *)
+(*            mark?, alt?, price?, para?, (a:int | b:string)*,                     *)
+(*            (n:int?, l:int?)*  - a repeated group of optional particles: any       *)
+(*            sequence of n and l -, t:int?                                         *)
 (*   alt   := @kind:boolean (required); XSD 1.1: the type alternative             *)
 (*            test="@kind = 'true'" requires one child x:string, otherwise no      *)
 (*            content (documents with alt "full" exist for the 1.1 schema only)    *)
@@ -45,22 +48,27 @@ NoKids(ns, n) == KidsOf(ns, n.path) = <<>>
 RECURSIVE AllAB(_)
 AllAB(w) == w = <<>> \/ (Head(w) \in {"a", "b"} /\ AllAB(Tail(w)))
 Opt(w, x) == IF w # <<>> /\ Head(w) = x THEN Tail(w) ELSE w
+RECURSIVE DropIn(_, _)
+DropIn(w, S) == IF w # <<>> /\ Head(w) \in S THEN DropIn(Tail(w), S) ELSE w
 RecContentOK(w) == /\ w # <<>> /\ Head(w) = "name"
-                   /\ AllAB(Opt(Opt(Opt(Opt(Opt(Opt(Opt(Opt(Opt(Tail(w), "fx"), "tags"), "tags"), "code"), "opt"),
-                                        "mark"), "alt"), "price"), "para"))
+                   /\ LET r == DropIn(DropIn(Opt(Opt(Opt(Opt(Opt(Opt(Opt(Opt(Opt(Tail(w), "fx"), "tags"), "tags"), "code"),
+                                                   "opt"), "mark"), "alt"), "price"), "para"), {"a", "b"}), {"n", "l"})
+                      IN r = <<>> \/ r = <<"t">>
 
 NodeOK(ns, n) ==
   CASE n.name = "doc"  -> /\ n.attrs = {} /\ n.text = "-"
                           /\ LET w == NamesOf(KidsOf(ns, n.path)) IN
                                w # <<>> /\ \A i \in DOMAIN w : w[i] = "rec"
-    [] n.name = "rec"  -> /\ AttrNames(n) \subseteq {"id", "flag", "ucode", "ver"} /\ "id" \in AttrNames(n)
+    [] n.name = "rec"  -> /\ AttrNames(n) \subseteq {"id", "flag", "ucode", "ver", "kws"} /\ "id" \in AttrNames(n)
+                          /\ ("kws" \in AttrNames(n) => AttrVal(n, "kws") = "k2")      \* "k2": two or more tokens
                           /\ ("ver" \in AttrNames(n) => AttrVal(n, "ver") = "f1")      \* the fixed value, in value space
                           /\ AttrVal(n, "id") = "i"
                           /\ ("flag" \in AttrNames(n) => AttrVal(n, "flag") = "bool")
                           /\ ("ucode" \in AttrNames(n) => AttrVal(n, "ucode") \in {"u3", "ua"})
                           /\ n.text = "-" /\ RecContentOK(NamesOf(KidsOf(ns, n.path)))
     [] n.name = "name" -> n.attrs = {} /\ n.text \in {"s", "i", "d", "x", "-"} /\ NoKids(ns, n)
-    [] n.name = "tags" -> n.attrs = {} /\ n.text \in {"l", "i", "-"} /\ NoKids(ns, n)
+    [] n.name = "tags" -> n.attrs = {} /\ n.text = "l" /\ NoKids(ns, n)      \* "l": two or more ints (minLength 2)
+    [] n.name \in {"n", "l", "t"} -> n.attrs = {} /\ n.text = "i" /\ NoKids(ns, n)
     [] n.name = "fx"   -> n.attrs = {} /\ n.text \in {"f1", "-"} /\ NoKids(ns, n)     \* fixed 1; empty takes the fixed value
     [] n.name = "code" -> n.attrs = {} /\ n.text \in {"u3", "ua"} /\ NoKids(ns, n)
     [] n.name = "opt"  -> /\ AttrNames(n) \subseteq {"nil"} /\ NoKids(ns, n)
@@ -89,7 +97,8 @@ RecCfg == [flag : BOOLEAN, tags : 0..2, code : {"-", "u3", "ua"}, ucode : {"-", 
            opt : {"-", "i", "nil"}, mark : {"-", "plain", "lvl"}, alt : {"-", "plain", "full"},
            price : BOOLEAN, para : 0..2,
            ab : {<<>>, <<"a">>, <<"b">>, <<"a", "a">>, <<"a", "b">>, <<"b", "a">>, <<"a", "b", "a">>,
-                 <<"b", "a", "b">>, <<"a", "a", "b">>}]
+                 <<"b", "a", "b">>, <<"a", "a", "b">>},
+           nl : {<<>>, <<"l", "l", "l", "l", "t">>, <<"n", "l", "t">>, <<"n", "n", "l", "l">>, <<"l", "n", "l">>}]
 RECURSIVE Seq2Nodes(_, _, _)
 Seq2Nodes(p, ks, i) == IF i > Len(ks) THEN <<>> ELSE
    <<Node(Append(p, i), ks[i][1], ks[i][2], ks[i][3])>>
@@ -112,14 +121,18 @@ RecKids(c) == <<<<"name", {}, "s", 0>>>>
               \o (IF c.price THEN <<<<"price", {<<"cur", "s">>}, "d", 0>>>> ELSE <<>>)
               \o (IF c.para > 0 THEN <<<<"para", {}, "m", c.para - 1>>>> ELSE <<>>)
               \o [i \in DOMAIN c.ab |-> <<c.ab[i], {}, IF c.ab[i] = "a" THEN "i" ELSE "s", 0>>]
-RecNodes(p, c) == <<Node(p, "rec", {<<"id", "i">>} \cup (IF c.flag THEN {<<"flag", "bool">>, <<"ver", "f1">>} ELSE {})
+              \o [i \in DOMAIN c.nl |-> <<c.nl[i], {}, "i", 0>>]
+RecNodes(p, c) == <<Node(p, "rec", {<<"id", "i">>} \cup (IF c.flag THEN {<<"flag", "bool">>, <<"ver", "f1">>, <<"kws", "k2">>} ELSE {})
                                     \cup (IF c.ucode # "-" THEN {<<"ucode", c.ucode>>} ELSE {}), "-")>>
                   \o Seq2Nodes(p, RecKids(c), 1)
 Contiguous(w) == \A i \in DOMAIN w : \A j \in DOMAIN w : (i < j /\ w[i] = w[j]) => \A k \in i..j : w[k] = w[i]
 
 CONSTANTS MaxRecs
 VARIABLES recs
-Init == recs \in UNION {[1..n -> RecCfg] : n \in 1..MaxRecs}
+(* the tail (n?, l?)*, t? is combined with the other optional parts only where it matters: with and without *)
+(* the preceding (a | b)* children *)
+RecOK(c) == c.nl = <<>> \/ (c.para = 0 /\ c.ab \in {<<>>, <<"a", "b">>})
+Init == recs \in UNION {[1..n -> {c \in RecCfg : RecOK(c)}] : n \in 1..MaxRecs}
 Next == FALSE /\ UNCHANGED recs
 Spec == Init /\ [][Next]_recs
 RECURSIVE AllRecs(_)
@@ -127,6 +140,8 @@ AllRecs(i) == IF i > Len(recs) THEN <<>> ELSE RecNodes(<<i>>, recs[i]) \o AllRec
 Doc == <<Node(<<>>, "doc", {}, "-")>> \o AllRecs(1)
 GeneratedAreValid == Valid(Doc)
 Emit == PrintT(ToJson([nodes |-> Doc,
-                       contiguous |-> \A i \in DOMAIN recs : Contiguous(recs[i].ab),
+                       contiguous |-> \A i \in DOMAIN recs : Contiguous(recs[i].ab) /\ Contiguous(recs[i].nl),
+                       \* a name-keyed convention cannot tell in which order DIFFERENT names alternate
+                       runs |-> \A i \in DOMAIN recs : recs[i].nl \in {<<"n", "n", "l", "l">>},
                        needs11 |-> \E i \in DOMAIN recs : recs[i].alt # "-"]))
 =============================================================================
